@@ -338,6 +338,11 @@ func (h *History) misbehaviorFor(height int64) []types.Misbehavior {
 		switch {
 		case len(vs) > 0 && h.Rng.IntN(5) != 0:
 			v := vs[h.Rng.IntN(len(vs))]
+			// The first two genesis entities never misbehave, so that the documented
+			// election precondition (stake-eligible validators remain) is kept.
+			if n := h.Sc.NodeByConsensusAddr(v.Addr); n != nil && (n.Entity == h.Sc.Entities[0] || n.Entity == h.Sc.Entities[1]) {
+				continue
+			}
 			val = types.Validator{Address: v.Addr, Power: v.Power}
 		default:
 			// Unknown validator address.
